@@ -197,6 +197,10 @@ func checkC03(c *Ctx) {
 	// C03-5: representation independence
 	c03Rescale(c, prog, set, pl)
 	c03WhoReads(c, prog)
+	c03Parity(c, prog, set)
+	// the encoders as functions of the symbolic coordinates (rule C06-4: bytes of X/Z, Y/Z, prefix from the parity of
+	// Y/Z, 0x00 for Z = 0): the "every encoding depends only on the abstract point" clause of this property
+	c06Encoders(c, prog, pl)
 
 	c.R.Explanation = "Translation validation of the three projective formulas (addComplete, addMixed, doubleComplete): the abstract interpreter evaluates each routine on symbolic coordinates over F_p (field.Element operations replaced by their ring specification, which C01 justifies) and the resulting output polynomials are compared, as normal forms, with the Renes-Costello-Batina closed forms for a=0, b3=21; the doubling reference is tied to the addition reference modulo the curve equation. Further rules: alias patterns of receiver/operands give the same normal forms; the exported operations reduce to these formulas on the right operands and propagate the validity flag; Equal is the two cross-product tests; every coordinate that leaves the package is read from a rescale() result and rescale is (X/Z, Y/Z, 1) or (0,1,0)."
 	c.R.Assumptions = []string{"C01: field.Element operations are exact ring operations mod p (Invert(0)=0)", "RCB15 completeness theorem: the closed forms are the group law for every pair of points on a prime-order curve", "go/ssa construction is faithful"}
@@ -422,6 +426,23 @@ func c03Equal(c *Ctx, prog *load.Program, set *models.Set, pl pointLayout) {
 	c.R.Floor("C03-4", 2)
 }
 
+// c03Parity: the y-parity test is a function of the abstract point: parity of Y/Z, and that of the canonical
+// identity (0,1,0) - i.e. odd - for every representative (0:Y:0) of the point at infinity.  (Decided on symbolic
+// coordinates, whichever way the routine computes it.)
+func c03Parity(c *Ctx, prog *load.Program, set *models.Set) {
+	r := RunFn(prog, set, Method(models.PointType, "IsYOdd"), nil)
+	pos := PosOf(prog, r.Fn)
+	if !r.OK() {
+		c.R.Unknown("C03-5", "IsYOdd", pos, r.Problem())
+		return
+	}
+	y, z := fpSym("*v.y"), fpSym("*v.z")
+	want := sym.App(sym.Bool, "odd", sym.Canon(sym.Ite(models.RingEq(z, fpConst(0)), fpConst(1), mul(models.Inv(z), y))))
+	got, _ := r.Result(0).(*sym.Term)
+	c.R.Decide(got != nil && sym.Equal(got, want), "C03-5", "IsYOdd", pos, "IsYOdd = parity of Y/Z, or of the canonical identity's y = 1 when Z = 0",
+		"IsYOdd depends on the projective representative: it is "+absint.ValString(got)+", expected "+want.String())
+}
+
 func c03Rescale(c *Ctx, prog *load.Program, set *models.Set, pl pointLayout) {
 	ptT := models.PointType
 	r := RunFn(prog, set, Method(ptT, "rescale"), nil)
@@ -478,10 +499,24 @@ func c03WhoReads(c *Ctx, prog *load.Program) {
 				}
 				n++
 				key := fmt.Sprintf("coordinate-read/%s/%s", fn.Name(), callee.Name())
+				isRescale := func(cc *ssa.Call) bool {
+					sc := cc.Common().StaticCallee()
+					return sc != nil && sc.Name() == "rescale" && recvNamed(sc) == models.PointType
+				}
 				src, fromRescale := fa.X.(*ssa.Call)
 				if fromRescale {
-					sc := src.Common().StaticCallee()
-					fromRescale = sc != nil && sc.Name() == "rescale" && recvNamed(sc) == models.PointType
+					fromRescale = isRescale(src)
+				}
+				if !fromRescale {
+					// or the point object was the receiver of a rescale() call that precedes the read on every path
+					// (`var scaled Point; scaled.rescale(v)`)
+					for _, bb := range fn.Blocks {
+						for _, ii := range bb.Instrs {
+							if cc, isCall := ii.(*ssa.Call); isCall && isRescale(cc) && len(cc.Common().Args) > 0 && cc.Common().Args[0] == fa.X && instrBefore(cc, call) {
+								fromRescale = true
+							}
+						}
+					}
 				}
 				c.R.Decide(fromRescale, "C03-5", key, PosStr(prog, call.Pos()),
 					"coordinate is read from a rescale() result", "a projective coordinate leaves the package without rescaling (representation-dependent)")
